@@ -379,6 +379,12 @@ def apply_event(W, ev):
         ld.cell = cell
         ld.buckets = W.buckets
         ld.load_cell()
+    elif kind == 'bucket_state':
+        # Node.set_state on a rack / pod (nothing in the master does this
+        # today; the API allows it)
+        since = S.int('ev_bsince%d' % getattr(W, 'nev', 0), NOW - TSPAN, NOW)
+        W.nev = getattr(W, 'nev', 0) + 1
+        W.buckets[ev[1]].set_state(sch.State(ev[2]), since)
     elif kind == 'set_valid_until':
         # the reboot date of a server is re-assigned under its instances
         # (RebootBucket.add, via Partition.add / Loader.set_server_valid_until,
@@ -848,6 +854,12 @@ def c08_pre(W):
             j = W.servers.index(srv)
             out[name]['since'] = W.down_since[j]
         out[name]['timeout'] = app.data_retention_timeout
-        out[name]['unschedule'] = app.unschedule
+        # an operator's unschedule request is tracked by the harness (it is
+        # consumed when the instance leaves the server it was marked on); the
+        # flag on the object under test may be stale
+        if hasattr(W, 'marks'):
+            out[name]['unschedule'] = name in W.marks
+        else:
+            out[name]['unschedule'] = app.unschedule
     out['__servers__'] = {n: s.state.value for n, s in mem.items()}
     return out
